@@ -57,6 +57,8 @@ FAULT_PROPS = {
     "OVERFLOW_OK": {"C03"},
     "OVERFLOW_STATE": {"C03"},
     "SHAPES_PANIC": {"C06"},
+    "ITER_DEFAULT": {"C09", "C10"},
+    "EXTEND_REF": {"C16"},
     "MIRI": None,
     "CRASH": None,  # every property
 }
@@ -654,7 +656,7 @@ def check(prop, tier, replay=None):
                         run_stats["objects_tracked_by_ledger"] += int(m.group(4))
 
     # 4b. element-shape oracles (no-Drop types with an observable Clone, ZST, Copy, large, heap-owning)
-    if not replay and prop in ("C03", "C06", "C15"):
+    if not replay and prop in ("C03", "C06", "C09", "C10", "C15", "C16"):
         for prof in ("debug", "release"):
             fp = f"{tmp}.{prof}.shapes"
             r = sh(f"{CACHE}/target/{prof}/mm-harness --shapes {fp}", timeout=120)
